@@ -178,3 +178,78 @@ def check_incoming_model(ctx: Ctx, rep: Any, rule: str, mpm_identifier: int, wan
                 except Exception:  # pylint: disable=broad-except
                     ident = None
                 rep.check(ident == want_model, rule, meth.site(n), f"{cls.name}.{meth.name}: the security model installed is the constant model {want_model}", f"identifier `{norm(n.args[0])}` = {ident!r}", key=f"{meth.key}|security-model-id")
+
+
+class PduEval:
+    """
+    ``PDU.decode_raw`` evaluated (engine/minieval.py) on a modelled TLV stream: ``x690.decode(data, pos, ..)`` hands
+    out the pos-th pre-decoded element and pos + 1.  However the three INTEGER reads, the binding list and the
+    error branch are written (inline, helper functions, loops), the outcome for a given (request-id, error-status,
+    error-index, number of bindings) is computed from the source.
+    """
+
+    def __init__(self, ctx: Ctx) -> None:
+        from ..engine.minieval import Instance, Sym
+
+        self.ctx = ctx
+        pdu = ctx.u.cls("puresnmp.pdu:PDU")
+        fn = ctx.r.method(pdu, "decode_raw")
+        if fn is None or fn.cls != pdu:
+            raise AnalysisError("PDU.decode_raw vanished")
+        self.fn = fn
+        self.pdu = pdu
+        self.integer = ctx.u.cls("x690.types:Integer")
+        self.sequence = ctx.u.cls("x690.types:Sequence")
+        self.Instance, self.Sym = Instance, Sym
+
+    def run(self, request_id: int, status: int, index: int, count: int):
+        """-> (kind, value, oids): kind in return / raise / uneval; oids = the OID symbols of the modelled bindings."""
+        from ..engine.minieval import ClassRef, MiniEval, Raised, Unevaluable
+
+        Instance, Sym = self.Instance, self.Sym
+
+        def x_int(v: int):
+            inst = Instance(self.integer, [], {})
+            inst.attrs.update(value=v, pyvalue=v)
+            return inst
+
+        oid_cls = self.ctx.u.cls("x690.types:ObjectIdentifier")
+        oids = []
+        for i in range(count):
+            o = Instance(oid_cls, [f"oid{i + 1}"], {})
+            o.attrs["__truth__"] = True  # a non-empty OID
+            oids.append(o)
+        vals = [Sym(f"value{i + 1}") for i in range(count)]
+
+        def x_seq(items):
+            inst = Instance(self.sequence, [], {})
+            inst.attrs["__items__"] = items
+            return inst
+
+        stream = [x_int(request_id), x_int(status), x_int(index), x_seq([x_seq([o, v]) for o, v in zip(oids, vals)])]
+
+        def decode_model(args, kwargs):
+            data = args[0]
+            pos = args[1] if len(args) > 1 else kwargs.get("start_index", 0)
+            want = kwargs.get("enforce_type")
+            if data is not stream or not isinstance(pos, int):
+                raise Unevaluable("x690.decode on something else than the PDU's octets")
+            if pos >= len(stream):
+                raise Raised(Sym("IndexError"))
+            item = stream[pos]
+            if want is not None:
+                is_seq = isinstance(item, Instance) and "__items__" in item.attrs
+                wname = want.cls.name if hasattr(want, "cls") else str(want)
+                if (wname == "Sequence") != is_seq:
+                    raise Raised(Sym("UnexpectedType"))
+            return (item, pos + 1)
+
+        ev = MiniEval(self.ctx, externals={X690_DECODE: decode_model}, max_steps=40000)
+        decos = [norm(d) for d in getattr(self.fn.node, "decorator_list", [])]
+        lead = [ClassRef(self.pdu)] if "classmethod" in decos else ([] if "staticmethod" in decos else [Instance(self.pdu, [], {})])
+        try:
+            return "return", ev.call_function(self.fn, lead + [stream]), (oids, vals)
+        except Raised as exc:
+            return "raise", exc.value, (oids, vals)
+        except Unevaluable as exc:
+            return "uneval", str(exc), (oids, vals)
